@@ -151,10 +151,17 @@ def decode_item(ex, r):
     return ('err', res.fields[0])
 
 
+_conc_ex = [None]
+
+
 def conc(v):
+    """span offsets are concrete along a path except when the code derives them from `len`: fork over the values"""
     if isinstance(v, int):
         return v
-    raise EngineError(f'span offset is not concrete on this path: {v}')
+    ex = _conc_ex[0]
+    if ex is None:
+        raise EngineError(f'span offset is not concrete on this path: {v}')
+    return ex.concretize(v, 'span offset', limit=ex.N + 2)
 
 
 def canon_v(v):
@@ -319,7 +326,7 @@ class StepResult:
 
 
 def explore_step(prog, d, tables, N, start, *, partial=False, props=None, is_release=False, budget=None,
-                 check_second_none=True, max_failures=20):
+                 check_second_none=True, max_failures=20, stream=False):
     """explore one next() from position `start`; returns StepResult"""
     ex = Exec(prog, N, debug_assertions=not is_release, time_budget=budget)
     if d.utf8:
@@ -341,6 +348,7 @@ def explore_step(prog, d, tables, N, start, *, partial=False, props=None, is_rel
             res.fail(ex, prop, what, neg, detail)
 
     def body(ex):
+        _conc_ex[0] = ex
         src = ex.source()
         lex = Cell(ex.call_root(mod + ('h_new_partial' if partial else 'h_new'), [src]))
         lref = Ref(lex, ())
@@ -349,174 +357,192 @@ def explore_step(prog, d, tables, N, start, *, partial=False, props=None, is_rel
                 ex.call_root(mod + 'h_bump', [lref, start])
             except Panic:
                 return ('start-not-valid',)
-        ex.events = []
-        t0 = start
-        out = ex.call_root(mod + 'h_next', [lref])
-        events = ex.events
-        ex.events = []
-        item = decode_item(ex, out)
-        sp = ex.call_root(mod + 'h_span', [lref])
-        s, e = conc(sp.fields[0]), conc(sp.fields[1])
-        # ---- split into attempts
-        attempts = []        # (t, [events])
-        cur_t, cur = t0, []
-        skips = []
-        for ev in events:
-            if ev[0] == 'trivia':
-                ss, ee = conc(ev[1]), conc(ev[2])
-                skips.append((ss, ee))
-                attempts.append((cur_t, cur, ('skip', ss, ee)))
-                cur_t, cur = ee, []
-            else:
-                cur.append(ev)
-        attempts.append((cur_t, cur, (item[0], s, e)))
-        # ---- tiling inside this call (C03): each attempt starts where the previous one ended
-        pos = t0
-        for (t, evs, (kind, ss, ee)) in attempts:
-            if kind == 'none':
-                continue
-            if ss != pos:
-                res.fail(ex, 'C03', f'{kind} span starts at {ss} but the previous item ended at {pos}')
-            if not (ee > ss):
-                res.fail(ex, 'C03', f'{kind} span {ss}..{ee} is empty')
-            prove(('C03', 'C05'), f'{kind} span {ss}..{ee} ends beyond the source', simp(z3.ULE(bvv(ee, U), ex.len)))
-            pos = ee
-        # ---- per-attempt reference obligations
-        for ai, (t, evs, (kind, ss, ee)) in enumerate(attempts):
-            cbs = [ev for ev in evs if ev[0] == 'cb' and cbspec.is_pattern_cb(ev[1])]
-            errcbs = [ev for ev in evs if ev[0] == 'cb' and cbspec.is_error_cb(ev[1])]
-            m = ee                      # end of the automaton's match (callbacks may bump beyond it)
-            if cbs:
-                if len(cbs) > 1:
-                    res.fail(ex, 'C13', f'{len(cbs)} pattern callbacks ran in one match attempt from {t}')
-                cb = cbs[0]
-                m = conc(cb[3])
-                if conc(cb[2]) != t:
-                    res.fail(ex, 'C13', f'callback {cbspec.short(cb[1])} saw span start {cb[2]}, the match starts at {t}')
-                idxs = cbspec.patterns_of(cb[1])
-                prove('C01', f'{kind} {ss}..{ee}: callback match {t}..{m} is not the longest match', R.longest_ok(t, m))
-                prove('C13', f'callback {cbspec.short(cb[1])} ran for {t}..{m} but its pattern is not the highest-priority '
-                             f'longest match', s_and(R.longest_ok(t, m), R.winner_in(t, m, idxs)))
-                exp = cbspec.expected(cb, idxs, errcbs)
-                got = cbspec.actual(kind, item if ai == len(attempts) - 1 else None, ss, ee)
-                if exp is not None and exp != got:
-                    res.fail(ex, 'C13', f'callback {cbspec.short(cb[1])} returned {cbspec.show(cb[4])} but the lexer produced '
-                                        f'{got}, documented: {exp}')
-                if kind != 'none' and conc(cb[5]) != ee:
-                    res.fail(ex, 'C13', f'item after callback ends at {ee} but the callback left the lexer at {cb[5]}')
-            elif kind == 'skip':
-                prove('C01', f'skip {ss}..{ee} is not the longest match from {t}', R.longest_ok(t, ee))
-                prove('C01', f'skip {ss}..{ee}: a skip pattern is not the highest-priority match',
-                      R.winner_in(t, ee, cbspec.plain(('skip',))))
-            elif kind == 'ok':
-                prove('C01', f'token {ss}..{ee} is not the longest match from {t}', R.longest_ok(t, ee))
-                vi = item[1]
-                prove('C01', f'token {ss}..{ee}: variant #{vi} is not the highest-priority match',
-                      R.winner_in(t, ee, cbspec.plain(('variant', vi))))
-                exp_fields = cbspec.plain_fields(vi, ss, ee)
-                if exp_fields is not None and [canon_v(x) for x in item[2]] != exp_fields:
-                    res.fail(ex, 'C13', f'value variant #{vi} without callback should hold the matched slice {ss}..{ee}, '
-                                        f'got {item[2]}')
-            elif kind == 'err':
-                if True:
-                    prove('C02', f'Err at {ss}..{ee} although some pattern matches a non-empty prefix',
-                          R.no_match(t))
-                    # end = boundary_up(max(dead_at, t+1))
-                    alts = []
-                    for r in range(t + 1, ee + 1):
-                        if r == t + 1:
-                            dcond = s_or(R.dead_at(t, t), R.dead_at(t, t + 1))
-                        else:
-                            dcond = R.dead_at(t, r)
-                        if is_str:
-                            bnd = s_and(is_boundary_term(ex, ee), *[s_not(is_boundary_term(ex, k)) for k in range(r, ee)])
-                        else:
-                            bnd = (r == ee)
-                        alts.append(s_and(dcond, bnd))
-                    prove('C02', f'Err span {ss}..{ee} does not follow the span rule', s_or(*alts))
-                    experr = cbspec.default_error(errcbs)
-                    if experr is not None and canon_v(item[1]) != experr:
-                        res.fail(ex, 'C02', f'error value {item[1]} is not the documented default {experr}')
-                    if cbspec.has_error_cb and len(errcbs) != 1:
-                        res.fail(ex, 'C13', f'error callback ran {len(errcbs)} times for one default error')
-            elif kind == 'none':
-                if not partial:
-                    prove('C03', f'None returned at {t} before the end of input', simp(ex.len == bvv(t, U)))
-                    if not (s == t and e == t):
-                        res.fail(ex, 'C03', f'span after None is {s}..{e}, expected {t}..{t}')
-            # ---- consumption discipline (C02 second sentence, C20)
-            loads = [conc_or_none(ev[1]) for ev in evs if ev[0] == 'load']
-            reads = [ev for ev in evs if ev[0] == 'read']
-            roffs = [conc_or_none(ev[1]) for ev in reads]
-            if any(o is None for o in loads + roffs):
-                res.fail(ex, 'C20', 'symbolic read offset')
-            else:
-                if any(o < t for o in loads + roffs):
-                    res.fail(ex, 'C20', f'read below the attempt start {t}: {sorted(set(loads + roffs))[:4]}')
-                if any(b < a for a, b in zip(roffs, roffs[1:])):
-                    res.fail(ex, 'C20', f'read offsets decrease within the attempt from {t}: {roffs}')
-                if any(b < a for a, b in zip(loads, loads[1:])):
-                    res.fail(ex, 'C20', f'byte loads go backwards within the attempt from {t}: {loads}')
-                examined = (max(loads) - t + 1) if loads else 0
-                if len(reads) > 3 * (examined + 1) + 3:
-                    res.fail(ex, 'C20', f'{len(reads)} read operations for {examined} examined bytes')
-                ex.acc.maxi('max_reads', len(reads))
-                if kind != 'none' and not (partial and kind == 'none'):
-                    x = max(loads) if loads else t - 1
-                    # every byte from t up to x was examined, and x is the fatal byte or the one before it
-                    if loads and sorted(set(loads)) != list(range(t, x + 1)):
-                        res.fail(ex, 'C20', f'bytes examined from {t} are not a contiguous prefix: {sorted(set(loads))}')
-                    if 'no_consumption_rule' not in d.tags:
-                        # x in {d-1, d} clipped to len-1, where d = dead_at(t)
-                        alts = []
-                        for dd in (x, x + 1):
-                            if dd >= t:
-                                alts.append(R.dead_at(t, dd))
-                        # clipped: d == len and x == len-1  is covered by dd == x+1 == len
-                        prove('C02', f'attempt from {t} examined bytes up to {x}: not where matching becomes impossible',
-                              s_or(*alts), detail={'loads': loads})
-        # ---- partial mode (C07, step part): None means "cannot decide yet"
-        if partial and item[0] == 'none':
-            t = attempts[-1][0]
-            if not (s == t and e == t):
-                res.fail(ex, 'C07', f'partial lexer: span after None is {s}..{e}, expected empty at {t}')
-            lookaround = any(not tb.facts.get('look_set_empty', True) for tb in tables)
-            und = R.undetermined(t)
-            if lookaround:
-                und = s_or(und, R.undetermined(t, back=1))      # the documented one-byte slack
-            prove('C07', f'partial lexer returned None at {t} although the next item is already determined',
-                  s_or(simp(ex.len == bvv(t, U)), und))
-        if partial:
+        def one_call(t0):
+            ex.events = []
+            out = ex.call_root(mod + 'h_next', [lref])
+            events = ex.events
+            ex.events = []
+            item = decode_item(ex, out)
+            sp = ex.call_root(mod + 'h_span', [lref])
+            s, e = conc(sp.fields[0]), conc(sp.fields[1])
+            # ---- split into attempts
+            attempts = []        # (t, [events])
+            cur_t, cur = t0, []
+            skips = []
+            for ev in events:
+                if ev[0] == 'trivia':
+                    ss, ee = conc(ev[1]), conc(ev[2])
+                    skips.append((ss, ee))
+                    attempts.append((cur_t, cur, ('skip', ss, ee)))
+                    cur_t, cur = ee, []
+                else:
+                    cur.append(ev)
+            attempts.append((cur_t, cur, (item[0], s, e)))
+            # ---- tiling inside this call (C03): each attempt starts where the previous one ended
+            pos = t0
             for (t, evs, (kind, ss, ee)) in attempts:
-                if kind != 'none':
-                    prove('C07', f'partial lexer committed {kind} {ss}..{ee} although more input could change it',
-                          s_not(R.undetermined(t)))
-        # ---- accessors (C04 / C05 / C14 basics)
-        try:
-            sl = ex.call_root(mod + 'h_slice', [lref])
-            rem = ex.call_root(mod + 'h_remainder', [lref])
-            if isinstance(sl, SrcSlice):
-                if not (sl.off == s and sl.len == e - s):
-                    res.fail(ex, 'C14', f'slice() is {sl} but span() is {s}..{e}')
-            if isinstance(rem, SrcSlice):
-                if not (rem.off == e):
-                    res.fail(ex, 'C14', f'remainder() starts at {rem.off}, span end is {e}')
-                prove('C14', 'remainder() does not extend to the end of the source',
-                      simp(as_bv(rem.len, U) + bvv(e, U) == ex.len))
-        except Panic as pn:
-            res.fail(ex, ('C04', 'C05') if is_str else ('C05',),
-                     f'slice()/remainder() panicked after {item[0]} {s}..{e}: {pn.msg[:80]}')
-        if is_str:
-            prove('C04', f'span start {s} is not a char boundary', is_boundary_term(ex, s))
-            prove('C04', f'span end {e} is not a char boundary', is_boundary_term(ex, e))
-        # ---- None is sticky (C03)
-        if item[0] == 'none' and not partial and check_second_none:
-            out2 = ex.call_root(mod + 'h_next', [lref])
-            it2 = decode_item(ex, out2)
-            sp2 = ex.call_root(mod + 'h_span', [lref])
-            if it2[0] != 'none' or conc(sp2.fields[0]) != s or conc(sp2.fields[1]) != e:
-                res.fail(ex, 'C03', f'second next() after None gave {it2[0]} span {sp2.fields}')
-        return (item[0], item[1] if item[0] == 'ok' else None, s, e, skips, ex.path_max_depth)
+                if kind == 'none':
+                    continue
+                if ss != pos:
+                    res.fail(ex, 'C03', f'{kind} span starts at {ss} but the previous item ended at {pos}')
+                if not (ee > ss):
+                    res.fail(ex, 'C03', f'{kind} span {ss}..{ee} is empty')
+                prove(('C03', 'C05'), f'{kind} span {ss}..{ee} ends beyond the source', simp(z3.ULE(bvv(ee, U), ex.len)))
+                pos = ee
+            # ---- per-attempt reference obligations
+            for ai, (t, evs, (kind, ss, ee)) in enumerate(attempts):
+                cbs = [ev for ev in evs if ev[0] == 'cb' and cbspec.is_pattern_cb(ev[1])]
+                errcbs = [ev for ev in evs if ev[0] == 'cb' and cbspec.is_error_cb(ev[1])]
+                m = ee                      # end of the automaton's match (callbacks may bump beyond it)
+                if cbs:
+                    if len(cbs) > 1:
+                        res.fail(ex, 'C13', f'{len(cbs)} pattern callbacks ran in one match attempt from {t}')
+                    cb = cbs[0]
+                    m = conc(cb[3])
+                    if conc(cb[2]) != t:
+                        res.fail(ex, 'C13', f'callback {cbspec.short(cb[1])} saw span start {cb[2]}, the match starts at {t}')
+                    idxs = cbspec.patterns_of(cb[1])
+                    prove('C01', f'{kind} {ss}..{ee}: callback match {t}..{m} is not the longest match', R.longest_ok(t, m))
+                    prove('C13', f'callback {cbspec.short(cb[1])} ran for {t}..{m} but its pattern is not the highest-priority '
+                                 f'longest match', s_and(R.longest_ok(t, m), R.winner_in(t, m, idxs)))
+                    exp = cbspec.expected(cb, idxs, errcbs)
+                    got = cbspec.actual(kind, item if ai == len(attempts) - 1 else None, ss, ee)
+                    if exp is not None and exp != got:
+                        res.fail(ex, 'C13', f'callback {cbspec.short(cb[1])} returned {cbspec.show(cb[4])} but the lexer produced '
+                                            f'{got}, documented: {exp}')
+                    if kind != 'none' and conc(cb[5]) != ee:
+                        res.fail(ex, 'C13', f'item after callback ends at {ee} but the callback left the lexer at {cb[5]}')
+                elif kind == 'skip':
+                    prove('C01', f'skip {ss}..{ee} is not the longest match from {t}', R.longest_ok(t, ee))
+                    prove('C01', f'skip {ss}..{ee}: a skip pattern is not the highest-priority match',
+                          R.winner_in(t, ee, cbspec.plain(('skip',))))
+                elif kind == 'ok':
+                    prove('C01', f'token {ss}..{ee} is not the longest match from {t}', R.longest_ok(t, ee))
+                    vi = item[1]
+                    prove('C01', f'token {ss}..{ee}: variant #{vi} is not the highest-priority match',
+                          R.winner_in(t, ee, cbspec.plain(('variant', vi))))
+                    exp_fields = cbspec.plain_fields(vi, ss, ee)
+                    if exp_fields is not None and [canon_v(x) for x in item[2]] != exp_fields:
+                        res.fail(ex, 'C13', f'value variant #{vi} without callback should hold the matched slice {ss}..{ee}, '
+                                            f'got {item[2]}')
+                elif kind == 'err':
+                    if True:
+                        prove('C02', f'Err at {ss}..{ee} although some pattern matches a non-empty prefix',
+                              R.no_match(t))
+                        # end = boundary_up(max(dead_at, t+1))
+                        alts = []
+                        for r in range(t + 1, ee + 1):
+                            if r == t + 1:
+                                dcond = s_or(R.dead_at(t, t), R.dead_at(t, t + 1))
+                            else:
+                                dcond = R.dead_at(t, r)
+                            if is_str:
+                                bnd = s_and(is_boundary_term(ex, ee), *[s_not(is_boundary_term(ex, k)) for k in range(r, ee)])
+                            else:
+                                bnd = (r == ee)
+                            alts.append(s_and(dcond, bnd))
+                        prove('C02', f'Err span {ss}..{ee} does not follow the span rule', s_or(*alts))
+                        experr = cbspec.default_error(errcbs)
+                        if experr is not None and canon_v(item[1]) != experr:
+                            res.fail(ex, 'C02', f'error value {item[1]} is not the documented default {experr}')
+                        if cbspec.has_error_cb and len(errcbs) != 1:
+                            res.fail(ex, 'C13', f'error callback ran {len(errcbs)} times for one default error')
+                elif kind == 'none':
+                    if not partial:
+                        prove('C03', f'None returned at {t} before the end of input', simp(ex.len == bvv(t, U)))
+                        if not (s == t and e == t):
+                            res.fail(ex, 'C03', f'span after None is {s}..{e}, expected {t}..{t}')
+                # ---- consumption discipline (C02 second sentence, C20)
+                loads = [conc(ev[1]) for ev in evs if ev[0] == 'load']
+                reads = [ev for ev in evs if ev[0] == 'read']
+                roffs = [conc(ev[1]) for ev in reads]
+                if any(o is None for o in loads + roffs):
+                    res.fail(ex, 'C20', 'symbolic read offset')
+                else:
+                    if any(o < t for o in loads + roffs):
+                        res.fail(ex, 'C20', f'read below the attempt start {t}: {sorted(set(loads + roffs))[:4]}')
+                    if any(b < a for a, b in zip(roffs, roffs[1:])):
+                        res.fail(ex, 'C20', f'read offsets decrease within the attempt from {t}: {roffs}')
+                    if any(b < a for a, b in zip(loads, loads[1:])):
+                        res.fail(ex, 'C20', f'byte loads go backwards within the attempt from {t}: {loads}')
+                    examined = (max(loads) - t + 1) if loads else 0
+                    if len(reads) > 3 * (examined + 1) + 3:
+                        res.fail(ex, 'C20', f'{len(reads)} read operations for {examined} examined bytes')
+                    ex.acc.maxi('max_reads', len(reads))
+                    if kind != 'none' and not (partial and kind == 'none'):
+                        x = max(loads) if loads else t - 1
+                        # every byte from t up to x was examined, and x is the fatal byte or the one before it
+                        if loads and sorted(set(loads)) != list(range(t, x + 1)):
+                            res.fail(ex, 'C20', f'bytes examined from {t} are not a contiguous prefix: {sorted(set(loads))}')
+                        if 'no_consumption_rule' not in d.tags:
+                            # x in {d-1, d} clipped to len-1, where d = dead_at(t)
+                            alts = []
+                            for dd in (x, x + 1):
+                                if dd >= t:
+                                    alts.append(R.dead_at(t, dd))
+                            # clipped: d == len and x == len-1  is covered by dd == x+1 == len
+                            prove('C02', f'attempt from {t} examined bytes up to {x}: not where matching becomes impossible',
+                                  s_or(*alts), detail={'loads': loads})
+            # ---- partial mode (C07, step part): None means "cannot decide yet"
+            if partial and item[0] == 'none':
+                t = attempts[-1][0]
+                if not (s == t and e == t):
+                    res.fail(ex, 'C07', f'partial lexer: span after None is {s}..{e}, expected empty at {t}')
+                lookaround = any(not tb.facts.get('look_set_empty', True) for tb in tables)
+                und = R.undetermined(t)
+                if lookaround:
+                    und = s_or(und, R.undetermined(t, back=1))      # the documented one-byte slack
+                prove('C07', f'partial lexer returned None at {t} although the next item is already determined',
+                      s_or(simp(ex.len == bvv(t, U)), und))
+            if partial:
+                for (t, evs, (kind, ss, ee)) in attempts:
+                    if kind != 'none':
+                        prove('C07', f'partial lexer committed {kind} {ss}..{ee} although more input could change it',
+                              s_not(R.undetermined(t)))
+            # ---- accessors (C04 / C05 / C14 basics)
+            try:
+                sl = ex.call_root(mod + 'h_slice', [lref])
+                rem = ex.call_root(mod + 'h_remainder', [lref])
+                def differs(a, b):
+                    if isinstance(a, int) and isinstance(b, int):
+                        return a != b
+                    return ex.check(simp(as_bv(a, U) != as_bv(b, U)))
+                if isinstance(sl, SrcSlice):
+                    if differs(sl.off, s) or differs(sl.len, e - s):
+                        res.fail(ex, 'C14', f'slice() is {sl} but span() is {s}..{e}')
+                if isinstance(rem, SrcSlice):
+                    if differs(rem.off, e):
+                        res.fail(ex, 'C14', f'remainder() starts at {rem.off}, span end is {e}')
+                    prove('C14', 'remainder() does not extend to the end of the source',
+                          simp(as_bv(rem.len, U) + bvv(e, U) == ex.len))
+            except Panic as pn:
+                res.fail(ex, ('C04', 'C05') if is_str else ('C05',),
+                         f'slice()/remainder() panicked after {item[0]} {s}..{e}: {pn.msg[:80]}')
+            if is_str:
+                prove('C04', f'span start {s} is not a char boundary', is_boundary_term(ex, s))
+                prove('C04', f'span end {e} is not a char boundary', is_boundary_term(ex, e))
+            # ---- None is sticky (C03)
+            if item[0] == 'none' and not partial and check_second_none:
+                out2 = ex.call_root(mod + 'h_next', [lref])
+                it2 = decode_item(ex, out2)
+                sp2 = ex.call_root(mod + 'h_span', [lref])
+                if it2[0] != 'none' or conc(sp2.fields[0]) != s or conc(sp2.fields[1]) != e:
+                    res.fail(ex, 'C03', f'second next() after None gave {it2[0]} span {sp2.fields}')
+            return (item[0], item[1] if item[0] == 'ok' else None, s, e, skips, ex.path_max_depth)
+
+        first = one_call(start)
+        if stream and first[0] != 'none':
+            # whole-stream cross-check of the induction over positions: keep calling next() until None
+            calls = 1
+            cur = first
+            while cur[0] != 'none':
+                calls += 1
+                if calls > ex.N + 3:
+                    res.fail(ex, 'C03', f'stream did not end after {calls} items on at most {ex.N} bytes')
+                    break
+                cur = one_call(cur[3])
+            ex.acc.maxi('max_stream_items', calls)
+        return first
 
     def on_leaf(ex, leaf):
         a = ex.acc
@@ -534,7 +560,9 @@ def explore_step(prog, d, tables, N, start, *, partial=False, props=None, is_rel
                                   'result': [leaf[1][0], leaf[1][1], leaf[1][2], leaf[1][3]], 'skips': leaf[1][4]})
         elif leaf[0] == 'panic':
             a.count('kinds', 'panic')
-            prop = 'C05' if safe_build else 'C03'
+            prop = ('C05', 'C03') if safe_build else ('C03',)
+            if 'cb' in d.tags:
+                prop = prop + ('C13',)
             res.fail(ex, prop, 'lexer panicked: ' + leaf[1][:120])
         else:
             kind, msg, model = leaf[1]
